@@ -137,7 +137,7 @@ func truncate(s string, n int) string {
 // ---------- model extraction ----------
 
 func (e *Engine) model(st *State) map[string]any {
-	r := e.sol.Query(nil)
+	r := e.sol.QueryFull(nil)
 	defer e.sol.EndQuery()
 	if r != "sat" {
 		return nil
